@@ -62,6 +62,7 @@ class Path:
         self.bounded_inputs = set()  # input descriptors that cover only a stated finite scope (ListOf / KeyedDict)
         self.flags = set()
         self.seq_lens = []  # length terms of symbolic sequences (to ask the solver for small counter-models)
+        self.covers = {}  # (clause key, antecedent text) -> reachable on this path? (vacuity guard for implications in top-level clauses)
 
     def bound_label(self):
         parts = []
